@@ -22,6 +22,24 @@ PROPS = {
                      'data-race and deadlock freedom of the Go runtime objects are supported by the -race stress run, not proved'],
         explanation='Lean theorems size_le_cap, evict_exactly_one, live_survives_if_expired_exists, lru_loss, interleaving_is_history; tie as C12',
     ),
+    'C14': dict(
+        family='verify', driver_family='verify', fields=['r'], facts=['blacklistDurationSec', 'skewFutureSec', 'defaultMaxSize', 'cacheGetExpiry'],
+        trusted=['the verdict of a from-scratch verification is the reference verdict by construction of each token (C02 ties it to the code)',
+                 'golang.org/x/time/rate token-bucket arithmetic (float64; compared away from the admission threshold)'],
+        rule='one case = one VerifyToken/RevokeToken step on a real instance in virtual time (3-13 tokens per scenario: valid short/long-lived, becoming valid later, bad signature, '
+             'foreign issuer/audience, no sub, garbage; with/without/shared jti; waits from 0 to 49 h; low-limit scenarios); distinct = distinct (op, token kind, answer); '
+             'non-trivial = all steps',
+        assumptions=['histories stay within the capacity (500) of the revocation list, as the property states', 'clock non-decreasing'],
+        explanation='Lean theorems over all histories (history_valid_implies_scratch, failed_never_cached, revoke_immediate, revTTL_covers); tie: step-by-step replay of VerifyToken/RevokeToken answers; reference oracle: accepted => reference verdict at that instant and never revoked before',
+    ),
+    'C19': dict(
+        family='limiter', driver_family='verify', fields=['r'], facts=['limiterRateIsConfigPerSecond', 'limiterBurstIsConfig'],
+        trusted=['golang.org/x/time/rate computes in float64 and truncates waits to whole nanoseconds: decisions within (r + 2e5)e-9 tokens of the threshold are followed, not compared'],
+        rule='one case = one VerifyToken arrival of a fresh correctly signed token (patterns: steady at/below the limit, drain-then-overload, bursts with idle gaps, just above the limit, '
+             'refused-then-retried, random; limits 10/37/100/1000/random) plus 20R requests on an authenticated session; distinct = distinct (pattern step, answer); non-trivial = all steps',
+        assumptions=['arrival instants are those of the virtual clock', 'exact-threshold arrivals are excluded from comparison (never compare floats)'],
+        explanation='Lean theorems upper / upper_one_second (at most 2R per one-second window), steady_admitted, inv_run, refused_not_performed; tie: admit/refuse sequence replayed by the integer token-bucket model; oracles: sliding-window count, steady streams never refused, sustained admission under overload, session traffic unlimited',
+    ),
 }
 
 for _k, _v in PROPS.items():
